@@ -455,6 +455,45 @@ def classify_incomplete(w):
     return None
 
 
+def floods(ctx):
+    """More than 16 KiB of handshake data that never forms a line is outside the protocol: the client closes when the
+    limit is crossed - also when the read that crosses it is the last thing the server ever sends."""
+    junk = b'x' * 20000
+    scenarios = {
+        'one read of 20000 bytes': [junk],
+        '16384 bytes, then one more': [junk[:16384], b'y'],
+        'a REJECTED line and 17000 bytes in one read': [b'REJECTED EXTERNAL\r\n' + junk[:17000]],
+        '4 KiB reads up to 20000 bytes': [junk[i:i + 4096] for i in range(0, 20000, 4096)],
+        'LF-only banner of 18000 bytes': [(b'HTTP/1.1 400 Bad Request\n' * 800)[:18000]],
+    }
+    for unix in (False, True):
+        for name, reads in scenarios.items():
+            s = ClientSession(unix)
+            s.collect()
+            for rd in reads:
+                s.ep.feed(rd)
+            ctx.count('evaluations')
+            ctx.count('flood_scenarios')
+            if not s.closed:
+                ctx.report('no-close-on-flood', 'server sent %s without a line end: the client keeps waiting (buffered %d bytes)' % (
+                    name, sum(len(x) for x in reads)), {'scenario': name, 'unix': unix}, {'kind': 'flood', 'scenario': name})
+            elif s.p.auth_calls:
+                ctx.report('begin-without-ok', 'client authenticated during a flood', {'scenario': name}, {'kind': 'flood'})
+            s.finish()
+    # a legal line of exactly 16384 bytes whose line end comes in a later read must not be refused early
+    s = ClientSession(False)
+    s.collect()
+    s.ep.feed(b'ERROR ' + b'e' * (16384 - 6))
+    still_open = not s.closed
+    s.ep.feed(b'\r\n')
+    out = s.collect()
+    ctx.count('evaluations')
+    if not still_open:
+        ctx.report('legal-line-closed', 'a legal handshake line of exactly 16384 bytes closed the connection before its line '
+                   'end arrived', {}, {'kind': 'flood', 'scenario': 'exact'})
+    s.finish()
+
+
 def rotated_cookie(ctx, env):
     """Later connections of the same process: the server keeps handing out the same cookie id, but the secret stored
     under it in the keyring has changed in between (a bus deletes cookies after use and numbers new ones from 1 again).
@@ -536,6 +575,7 @@ def run(ctx):
                                 full_handshake(ctx, accept, agree, unix, style, dict(case, split=1),
                                                split_rng=random.Random(str(case)))
             rotated_cookie(ctx, env)
+            floods(ctx)
         ctx.sample({'server_lines': [LINE[s].decode() for s in ('REJECTED', 'DATA_cookie', 'OK_guid', 'AGREE_UNIX_FD')],
                     'transport': 'UNIX'})
     ctx.require(ctx.counters.get('begins', 0) > 10, 'no BEGIN observed')
@@ -546,6 +586,9 @@ def replay(ctx, rp):
     case = rp['case']
     with authenv.AuthEnv() as env:
         env.write_cookie(COOKIE_CTX.decode(), COOKIE_ID, COOKIE)
+        if case.get('kind') == 'flood':
+            floods(ctx)
+            return
         if case.get('kind') == 'rotated':
             full_handshake(ctx, (b'DBUS_COOKIE_SHA1',), True, case['unix'], 'data', {'kind': 'full'})
             rotated_cookie(ctx, env)
